@@ -67,7 +67,15 @@ class Lst:
         self.k = k
 
 
-CLASSES = {c.__name__: c for c in (P0, P1, P2, P3, T2, T12, Nest, Deep, Mode, Lst)}
+class Idx:
+    """parameters whose names begin like names the library treats specially (`id`, `paths`, `cls`, `_`-free)"""
+
+    def __init__(self, ideal=0.5, paths_n=1.0):
+        self.ideal = ideal
+        self.paths_n = paths_n
+
+
+CLASSES = {c.__name__: c for c in (P0, P1, P2, P3, T2, T12, Nest, Deep, Mode, Lst, Idx)}
 
 
 class P1b:
